@@ -96,22 +96,20 @@ Qed.
 Section ViaJson.
   Variable E : env.
   Variable fmt_sj : Z -> list N.
-  Variable lossy : list N -> Z.
 
-  (* serde_json prints a finite float in non-integer syntax and the lossy parser reads it
-     back exactly *)
+  (* serde_json prints a finite double in non-integer syntax and that spelling reads back
+     (correctly rounded) as the same double; the spelling of a widened f32 reads back
+     (correctly rounded to binary32) as that f32 *)
   Hypothesis Hsj : forall x, f64_wf x = true -> f64_finite x = true ->
-    num_event lossy (fmt_sj x) = EvF x.
-  (* `f32 as f64` is exact: casting back gives the same binary32 (IEEE-754 arithmetic fact
-     about the model's own casts, stated as a premise) *)
-  Hypothesis Hwiden : forall b, f32_wf b = true -> f32_finite b = true ->
-    f64_wf (f64_of_f32 b) = true /\ f64_finite (f64_of_f32 b) = true /\ f32_of_f64 (f64_of_f32 b) = b.
+    num_event (fmt_sj x) = EvF x.
+  Hypothesis Hsj32 : forall b, f32_wf b = true -> f32_finite b = true ->
+    de_f32 (fmt_sj (f64_of_f32 b)) = b.
 
-  Notation de := (Serde.de E lossy).
+  Notation de := (Serde.de E).
   Notation fsj := (from_tsj fmt_sj).
 
   Definition VIA (d : tsd) : Prop :=
-    forall t, has_type E d t = true -> finite_floats d = true -> k2_class d = false ->
+    forall t, has_type E d t = true -> finite_floats d = true ->
     exists j, ser_sj d = Ok j /\
               exists n, forall fuel, (n <= fuel)%nat -> de fuel t (fsj j) = Ok (sort_maps d).
 
@@ -130,16 +128,15 @@ Section ViaJson.
   (* ---- lists ---- *)
   Lemma seq_via : forall l, Forall VIA l -> forall t',
     forallb (fun x => has_type E x t') l = true -> forallb finite_floats l = true ->
-    existsb k2_class l = false ->
     exists js, omap (fun x => ser_sj x) l = Ok js /\
                exists n, forall fuel, (n <= fuel)%nat ->
                  de_seq (de fuel) t' (map fsj js) = Ok (map sort_maps l).
   Proof.
-    induction 1 as [|x l Hx _ IH]; intros t' Ht Hf Hk.
+    induction 1 as [|x l Hx _ IH]; intros t' Ht Hf.
     - exists []. split; [reflexivity|]. exists O. reflexivity.
-    - cbn [forallb existsb] in *. split_and Ht. split_and Hf. apply orb_false_iff in Hk. destruct Hk as [Hk Hk0].
-      destruct (Hx t' Ht Hf Hk) as (v & Hv & n1 & Hn1).
-      destruct (IH t' Ht0 Hf0 Hk0) as (vs & Hvs & n2 & Hn2).
+    - cbn [forallb existsb] in *. split_and Ht. split_and Hf.
+      destruct (Hx t' Ht Hf) as (v & Hv & n1 & Hn1).
+      destruct (IH t' Ht0 Hf0) as (vs & Hvs & n2 & Hn2).
       exists (v :: vs). split.
       + cbn [omap]. rewrite Hv. cbn [obind]. rewrite Hvs. reflexivity.
       + exists (Nat.max n1 n2). intros fuel Hfu. cbn [de_seq map].
@@ -148,17 +145,16 @@ Section ViaJson.
 
   Lemma tuple_via : forall l, Forall VIA l -> forall ts,
     all2b (fun x t => has_type E x t) l ts = true -> forallb finite_floats l = true ->
-    existsb k2_class l = false ->
     exists js, omap (fun x => ser_sj x) l = Ok js /\
                exists n, forall fuel, (n <= fuel)%nat ->
                  de_tuple (de fuel) ts (map fsj js) = Ok (map sort_maps l).
   Proof.
-    induction 1 as [|x l Hx _ IH]; intros ts Ht Hf Hk.
+    induction 1 as [|x l Hx _ IH]; intros ts Ht Hf.
     - destruct ts; [|discriminate]. exists []. split; [reflexivity|]. exists O. reflexivity.
     - destruct ts as [|t ts]; [discriminate|].
-      cbn [all2b forallb existsb] in *. split_and Ht. split_and Hf. apply orb_false_iff in Hk. destruct Hk as [Hk Hk0].
-      destruct (Hx t Ht Hf Hk) as (v & Hv & n1 & Hn1).
-      destruct (IH ts Ht0 Hf0 Hk0) as (vs & Hvs & n2 & Hn2).
+      cbn [all2b forallb existsb] in *. split_and Ht. split_and Hf.
+      destruct (Hx t Ht Hf) as (v & Hv & n1 & Hn1).
+      destruct (IH ts Ht0 Hf0) as (vs & Hvs & n2 & Hn2).
       exists (v :: vs). split.
       + cbn [omap]. rewrite Hv. cbn [obind]. rewrite Hvs. reflexivity.
       + exists (Nat.max n1 n2). intros fuel Hfu. cbn [de_tuple map].
@@ -189,21 +185,20 @@ Section ViaJson.
   Lemma fields_via : forall l, Forall (fun fx => VIA (snd fx)) l -> forall fts,
     fields2b (fun x t => has_type E x t) l fts = true ->
     forallb (fun fx => finite_floats (snd fx)) l = true ->
-    existsb (fun fx => k2_class (snd fx)) l = false ->
     exists js, omap (fun fx : str * tsd => ser_sj (snd fx)) l = Ok js /\
       exists n, forall fuel, (n <= fuel)%nat -> forall pre : list entry,
         nodup_str (map fst pre ++ map fst l) = true ->
         FV (de fuel) (pre ++ combine (map fst l) (map fsj js)) l fts.
   Proof.
-    induction 1 as [|[f x] l Hx _ IH]; intros fts Ht Hf Hk.
+    induction 1 as [|[f x] l Hx _ IH]; intros fts Ht Hf.
     - destruct fts; [|discriminate]. exists []. split; [reflexivity|].
       exists O. intros. constructor.
     - destruct fts as [|[f' t] fts]; [discriminate|].
       cbn [fields2b forallb existsb fst snd] in *. split_and Ht. split_and Hf.
-      apply orb_false_iff in Hk. destruct Hk as [Hk Hk0].
+     
       apply str_eqb_spec in Ht. subst f'.
-      destruct (Hx t Ht1 Hf Hk) as (v & Hv & n1 & Hn1).
-      destruct (IH fts Ht0 Hf0 Hk0) as (vs & Hvs & n2 & Hn2).
+      destruct (Hx t Ht1 Hf) as (v & Hv & n1 & Hn1).
+      destruct (IH fts Ht0 Hf0) as (vs & Hvs & n2 & Hn2).
       exists (v :: vs). split.
       + cbn [omap snd]. rewrite Hv. cbn [obind]. rewrite Hvs. reflexivity.
       + exists (Nat.max n1 n2). intros fuel Hfu pre Hnd.
@@ -252,19 +247,18 @@ Section ViaJson.
   Lemma entries_via : forall l, Forall (fun kv => VIA (fst kv) /\ VIA (snd kv)) l -> forall kt t',
     forallb (fun kv => key_has_type E (fst kv) kt && has_type E (snd kv) t') l = true ->
     forallb (fun kv => finite_floats (fst kv) && finite_floats (snd kv)) l = true ->
-    existsb (fun kv => k2_class (snd kv)) l = false ->
     exists js, omap (fun kx : tsd * tsd => ser_sj_key (fst kx)) l = Ok (keys_of l) /\
                omap (fun kx : tsd * tsd => ser_sj (snd kx)) l = Ok js /\
       exists n, forall fuel, (n <= fuel)%nat -> ER (de fuel) kt t' l (keys_of l) (map fsj js).
   Proof.
-    induction 1 as [|[k x] l [_ Hx] _ IH]; intros kt t' Ht Hf Hk.
+    induction 1 as [|[k x] l [_ Hx] _ IH]; intros kt t' Ht Hf.
     - exists []. repeat split; try reflexivity. exists O. intros. constructor.
     - cbn [forallb existsb fst snd] in *. split_and Ht. split_and Hf.
-      apply orb_false_iff in Hk. destruct Hk as [Hk Hk0].
+     
       destruct (key_ser E k kt Ht) as (s & Ks & _ & Kde & _).
       destruct (key_sj E k kt Ht) as (s' & Ks' & _ & Ksj). rewrite Ks in Ks'. inversion Ks'; subst s'.
-      destruct (Hx t' Ht1 Hf1 Hk) as (v & Hv & n1 & Hn1).
-      destruct (IH kt t' Ht0 Hf0 Hk0) as (vs & Hks & Hvs & n2 & Hn2).
+      destruct (Hx t' Ht1 Hf1) as (v & Hv & n1 & Hn1).
+      destruct (IH kt t' Ht0 Hf0) as (vs & Hks & Hvs & n2 & Hn2).
       exists (v :: vs). cbn [keys_of]. rewrite Ks. split; [|split].
       + cbn [omap fst]. rewrite Ksj. cbn [obind]. rewrite Hks. reflexivity.
       + cbn [omap snd]. rewrite Hv. cbn [obind]. rewrite Hvs. reflexivity.
@@ -287,17 +281,16 @@ Section ViaJson.
 
   Theorem via_VIA : forall d, VIA d.
   Proof.
-    induction d using tsd_ind'; intros t Ht Hf Hk; destruct t; cbn [has_type] in Ht; try discriminate;
-      cbn [finite_floats k2_class] in Hf, Hk.
+    induction d using tsd_ind'; intros t Ht Hf; destruct t; cbn [has_type] in Ht; try discriminate;
+      cbn [finite_floats] in Hf.
     - (* bool *) exists (TjBool b). split; [reflexivity|]. fuel1 O. reflexivity.
     - (* int *) split_and Ht. apply ikind_eqb_eq in Ht. subst k0.
       exists (TjNum (sj_int z)). split; [reflexivity|]. fuel1 O.
       assert (Htxt : sjnum_text fmt_sj (sj_int z) = z_dec z) by (unfold sj_int; destruct (z <? 0); reflexivity).
-      cbn [from_tsj]. rewrite Htxt. rewrite (de_int_roundtrip lossy k z Ht0). reflexivity.
-    - (* f32 *) destruct (Hwiden b Ht Hf) as (W1 & W2 & W3).
-      exists (TjNum (SJFloat (f64_of_f32 b))). split.
+      cbn [from_tsj]. rewrite Htxt. rewrite (de_int_roundtrip k z Ht0). reflexivity.
+    - (* f32 *) exists (TjNum (SJFloat (f64_of_f32 b))). split.
       + cbn [ser_sj]. rewrite Hf. reflexivity.
-      + fuel1 O. cbn [from_tsj sjnum_text]. rewrite (Hsj _ W1 W2). cbn [de_f32]. rewrite W3. reflexivity.
+      + fuel1 O. cbn [from_tsj sjnum_text]. rewrite (Hsj32 b Ht Hf). reflexivity.
     - (* f64 *) exists (TjNum (SJFloat b)). split.
       + cbn [ser_sj]. rewrite Hf. reflexivity.
       + fuel1 O. cbn [from_tsj sjnum_text]. rewrite (Hsj _ Ht Hf). reflexivity.
@@ -309,7 +302,7 @@ Section ViaJson.
       exists TjNull. split; [reflexivity|]. fuel1 O. rewrite Ea. reflexivity.
     - (* none *) exists TjNull. split; [reflexivity|]. fuel1 O. reflexivity.
     - (* some *) split_and Ht.
-      destruct (IHd t Ht Hf Hk) as (j & Hj & m & Hn).
+      destruct (IHd t Ht Hf) as (j & Hj & m & Hn).
       exists j. split; [exact Hj|].
       assert (Hnn : fsj j <> VNull).
       { intros Hnull. apply fsj_null in Hnull. subst j. apply ser_sj_null in Hj. rewrite Hj in Ht0. discriminate. }
@@ -317,24 +310,24 @@ Section ViaJson.
       rewrite (de_option_nonnull fuel t (fsj j) Hnn). rewrite Hn by lia. reflexivity.
     - (* newtype struct *) split_and Ht. apply str_eqb_spec in Ht. subst name.
       destruct (assoc n E) as [[]|] eqn:Ea; try discriminate.
-      destruct (IHd t Ht0 Hf Hk) as (j & Hj & m & Hn).
+      destruct (IHd t Ht0 Hf) as (j & Hj & m & Hn).
       exists j. split; [exact Hj|]. fuel1 m. rewrite Ea, Hn by lia. reflexivity.
-    - (* seq *) destruct (seq_via l H t Ht Hf Hk) as (js & Hjs & m & Hn).
+    - (* seq *) destruct (seq_via l H t Ht Hf) as (js & Hjs & m & Hn).
       exists (TjArr js). split.
       + cbn [ser_sj]. rewrite Hjs. reflexivity.
       + fuel1 m. cbn [from_tsj]. rewrite Hn by lia. reflexivity.
-    - (* tuple *) destruct (tuple_via l H l0 Ht Hf Hk) as (js & Hjs & m & Hn).
+    - (* tuple *) destruct (tuple_via l H l0 Ht Hf) as (js & Hjs & m & Hn).
       exists (TjArr js). split.
       + cbn [ser_sj]. rewrite Hjs. reflexivity.
       + fuel1 m. cbn [from_tsj]. rewrite Hn by lia. reflexivity.
     - (* tuple struct *) split_and Ht. apply str_eqb_spec in Ht. subst name.
       destruct (assoc n E) as [[]|] eqn:Ea; try discriminate.
-      destruct (tuple_via l H l0 Ht0 Hf Hk) as (js & Hjs & m & Hn).
+      destruct (tuple_via l H l0 Ht0 Hf) as (js & Hjs & m & Hn).
       exists (TjArr js). split.
       + cbn [ser_sj]. rewrite Hjs. reflexivity.
       + fuel1 m. rewrite Ea. cbn [from_tsj]. rewrite Hn by lia. reflexivity.
     - (* map *) split_and Ht.
-      destruct (entries_via l H k t Ht Hf Hk) as (js & Hks & Hjs & m & Hn).
+      destruct (entries_via l H k t Ht Hf) as (js & Hks & Hjs & m & Hn).
       exists (TjObj (isort (combine (keys_of l) js))). split.
       + cbn [ser_sj].
         assert (X : sj_entries_g ser_sj_key ser_sj l [] = Ok (isort (combine (keys_of l) js)))
@@ -352,7 +345,7 @@ Section ViaJson.
           rewrite Forall_forall in F2. exact (F2 e He).
     - (* struct *) split_and Ht. apply str_eqb_spec in Ht. subst name.
       destruct (assoc n E) as [[]|] eqn:Ea; try discriminate. split_and Ht0.
-      destruct (fields_via l H l0 Ht0 Hf Hk) as (js & Hjs & m & Hn).
+      destruct (fields_via l H l0 Ht0 Hf) as (js & Hjs & m & Hn).
       exists (TjObj (isort (combine (map fst l) js))). split.
       + cbn [ser_sj].
         assert (X : sj_fields_g ser_sj l [] = Ok (isort (combine (map fst l) js)))
@@ -379,24 +372,22 @@ Section ViaJson.
     - (* newtype variant *) split_and Ht. apply str_eqb_spec in Ht. subst name.
       destruct (assoc n E) as [[]|] eqn:Ea; try discriminate.
       destruct (assoc v vs) as [[]|] eqn:Ev; try discriminate.
-      destruct (IHd t Ht0 Hf Hk) as (j & Hj & m & Hn).
+      destruct (IHd t Ht0 Hf) as (j & Hj & m & Hn).
       exists (TjObj [(v, j)]). split.
       + cbn [ser_sj]. rewrite Hj. reflexivity.
       + fuel1 m. rewrite Ea. cbn [from_tsj map fst snd]. rewrite Ev, Hn by lia. reflexivity.
     - (* tuple variant *) split_and Ht. apply str_eqb_spec in Ht. subst name.
       destruct (assoc n E) as [[]|] eqn:Ea; try discriminate.
       destruct (assoc v vs) as [[]|] eqn:Ev; try discriminate.
-      destruct l as [|x l]; [discriminate|].
-      destruct (tuple_via (x :: l) H l0 Ht0 Hf Hk) as (js & Hjs & m & Hn).
+      destruct (tuple_via l H l0 Ht0 Hf) as (js & Hjs & m & Hn).
       exists (TjObj [(v, TjArr js)]). split.
       + cbn [ser_sj]. rewrite Hjs. reflexivity.
       + fuel1 m. rewrite Ea. cbn [from_tsj map fst snd]. rewrite Ev.
-        pose proof (omap_length _ _ _ Hjs) as Hlen.
-        destruct js as [|j js]; [discriminate|]. cbn [map] in *. rewrite Hn by lia. reflexivity.
+        rewrite Hn by lia. reflexivity.
     - (* struct variant *) split_and Ht. apply str_eqb_spec in Ht. subst name.
       destruct (assoc n E) as [[]|] eqn:Ea; try discriminate.
       destruct (assoc v vs) as [[]|] eqn:Ev; try discriminate. split_and Ht0.
-      destruct (fields_via l H l0 Ht0 Hf Hk) as (js & Hjs & m & Hn).
+      destruct (fields_via l H l0 Ht0 Hf) as (js & Hjs & m & Hn).
       exists (TjObj [(v, TjObj (isort (combine (map fst l) js)))]). split.
       + cbn [ser_sj].
         assert (X : sj_fields_g ser_sj l [] = Ok (isort (combine (map fst l) js)))
@@ -422,10 +413,11 @@ Section ViaJson.
   Qed.
 End ViaJson.
 
-(* `f32 as f64 as f32` on a sample (the premise Hwiden of via_VIA; non-vacuity) *)
-Lemma widen_sample :
-  forallb (fun b => f64_wf (f64_of_f32 b) && f64_finite (f64_of_f32 b) && (f32_of_f64 (f64_of_f32 b) =? b)) sample32 = true.
-Proof. vm_compute. reflexivity. Qed.
+(* the premises of via_VIA on a sample, for the reference spelling of serde_json floats *)
+Lemma via_premises_sample :
+  forallb (fun x => match num_event (fmt_sj_ref x) with EvF y => y =? x | _ => false end) sample64 = true /\
+  forallb (fun b => de_f32 (fmt_sj_ref (f64_of_f32 b)) =? b) sample32 = true.
+Proof. split; vm_compute; reflexivity. Qed.
 
 Print Assumptions via_VIA.
 Print Assumptions shape_SH.
